@@ -83,6 +83,12 @@ def top_lib_frame(text):
 
 def classify_crash(stderr_text):
     """Return (kind, sig, excerpt). kind in hang|panic|inconclusive."""
+    if "VERIF-WATCHDOG" in stderr_text and "synctest bubble" in stderr_text and "graphsync.waitForCompleteHook" in stderr_text:
+        # artefact of the virtual clock, not a hang: dtChannel.open holds the channel lock while it waits up to
+        # maxGSCancelWait on a timer; another goroutine waiting for that lock is not "durably" blocked, so the
+        # bubble never becomes idle and the virtual timer can never fire. On a real clock this resolves after 1 s
+        # (the same overlap is exercised on the real clock by the C20 workloads). Retried like a runtime crash.
+        return "toolchain", "virtual-clock-artifact lock held across waitForCompleteHook timer", ""
     if "VERIF-WATCHDOG" in stderr_text:
         # goroutine dump follows; find library goroutines and what they are parked on
         blocks = stderr_text.split("\n\n")
